@@ -17,7 +17,7 @@ CHECKS = {
         "rule": "an execution = one tuner_t::optimize run under one answer sequence; non-trivial = landscapes with a tie for "
                 "the minimum among the evaluated points; for the nonfinite stage: runs in which the poisoned evaluation was reached",
         "assumptions": [],
-        "deadline": {"quick": 240, "thorough": 3600},
+        "deadline": {"quick": 480, "thorough": 3600},
         "stages": [
             {"name": "landscape", "harness": "c13_tuner", "args": ["--stage", "landscape"], "share": 0.2,
              "what": "grid-only, no repeats, <= max_evals + 3^d, sorted steps, first = minimum, steps = evaluations"},
